@@ -359,6 +359,8 @@ class CTMCCredit(CTMCGrid):
         pivot_position = 4
         if any(axis[pivot_position] != 0 for axis in axes):
             raise ValueError("CTMCCredit grid error: pivot position")
+        if any(np.any(np.diff(axis) <= 0) for axis in axes):
+            raise ValueError("CTMCCredit grid error: the axis is not strictly increasing")
 
         super().__init__(h=h, origin_coordinate=pivot_position, axes=axes)
 
